@@ -29,8 +29,10 @@ IdOffs1 == {0}
 IdOffs3 == {-1, 0, 1}
 IdOffs4 == {-1, 0, 1, 2}
 
-VARIABLES prf, open, w
-vars == <<prf, open, w>>
+\* rn, rg: ghost variables = RefCheck of the current object without / with gaps allowed (functions of prf,
+\* kept in the state so that each is evaluated once per object)
+VARIABLES prf, open, w, rn, rg
+vars == <<prf, open, w, rn, rg>>
 
 \* ---------------------------------------------------------------- generator helpers
 \* items carry a ghost field nat: the sequent the rule yields when its citations are resolved by position
@@ -53,7 +55,7 @@ Variants(s) == (IF atB \notin s.h THEN {Sq(s.h \cup {atB}, s.c)} ELSE IF atA \no
 TW(t, x) == [th |-> t, w |-> x]
 ThOpts(rl, nat) ==
   CASE rl = "" -> {TW(NoneS, 0), TW(Sq({}, atB), 1)}
-    [] rl = "sorry" -> {TW(Sq({}, atB), 0), TW(Sq({atA}, Imp(atA, atB)), 0), TW(NoneS, 1)}
+    [] rl = "sorry" -> {TW(Sq({}, atB), 0), TW(NoneS, 1)}
     [] OTHER -> IF IsNone(nat) THEN {TW(NoneS, 0), TW(Sq({}, atB), 1)}
                 ELSE {TW(NoneS, 0), TW(nat, 0)} \cup { TW(v, 1) : v \in Variants(nat) \ {nat} }
 AW(a, x) == [a |-> a, w |-> x]
@@ -69,6 +71,10 @@ SumW(p, cs) == IF Len(cs) = 0 THEN 0 ELSE CW(p, cs[1]) + SumW(p, Tail(cs))
 TopCites(k) == { <<j>> : j \in (-1)..MaxItems }
                \cup UNION { { <<j, i>> : i \in 0..(Len(prf[j + 1].sub) - 1) } : j \in { j \in 0..(k - 1) : prf[j + 1].rule = "subproof" } }
 SubCites(b, bid) == { <<j>> : j \in (-1)..(b + 1) } \cup { <<q, i>> : q \in {b, bid}, i \in (-1)..MaxSub }
+
+\* with no budget left only the anomaly-free choices are enumerated (same successors, fewer candidates)
+OffsFor(rem) == IF rem <= 0 THEN IdOffs \cap {0} ELSE IdOffs
+CitesFor(pool, p, rem) == IF rem <= 0 THEN { c \in pool : CW(p, c) = 0 } ELSE pool
 
 \* ---------------------------------------------------------------- emission (spec -> code vectors)
 RECURSIVE ToJ(_)
@@ -88,38 +94,44 @@ EmitObj(p) == IF Emit THEN CSVWrite("%1$s", << ToJson([prf |-> ToJ(p), exts |-> 
 Item(id, rl, a, cs, th, nat) == [id |-> id, rule |-> rl, arg |-> a, prevs |-> cs, th |-> th, sub |-> <<>>, nat |-> nat]
 NBlocks == Cardinality({ i \in 1..Len(prf) : prf[i].rule = "subproof" })
 
-Init == prf = <<>> /\ open = FALSE /\ w = 0
+Ghost == rn' = RefCheck(prf', TRUE) /\ rg' = RefCheck(prf', FALSE)
+Init == prf = <<>> /\ open = FALSE /\ w = 0 /\ rn = RefCheck(<<>>, TRUE) /\ rg = RefCheck(<<>>, FALSE)
 
 AddTop == /\ ~open /\ Len(prf) < MaxItems
-          /\ \E rl \in Rules \ {"subproof"} : \E off \in IdOffs : \E a \in Args(rl) :
-             LET k == Len(prf) IN
-             \E cs \in Tuples(TopCites(k), Arity(rl)) :
-             LET nat == NatOf(rl, a.a, cs, prf) IN
-             \E t \in ThOpts(rl, nat) :
-             LET w2 == w + (IF off = 0 THEN 0 ELSE 1) + a.w + SumW(<<k>>, cs) + t.w IN
-             /\ w2 <= Budget
-             /\ prf' = Append(prf, Item(<<k + off>>, rl, a.a, cs, t.th, nat))
-             /\ w' = w2 /\ UNCHANGED open
-             /\ EmitObj(prf')
+          /\ \E rl \in Rules \ {"subproof"} : \E off \in OffsFor(Budget - w) : \E a \in Args(rl) :
+             LET k == Len(prf)  w1 == w + (IF off = 0 THEN 0 ELSE 1) + a.w IN
+             /\ w1 <= Budget
+             /\ \E cs \in Tuples(CitesFor(TopCites(k), <<k>>, Budget - w1), Arity(rl)) :
+                LET w2 == w1 + SumW(<<k>>, cs) IN
+                /\ w2 <= Budget
+                /\ LET nat == NatOf(rl, a.a, cs, prf) IN
+                   \E t \in ThOpts(rl, nat) :
+                   /\ w2 + t.w <= Budget
+                   /\ prf' = Append(prf, Item(<<k + off>>, rl, a.a, cs, t.th, nat))
+                   /\ w' = w2 + t.w /\ UNCHANGED open
+                   /\ EmitObj(prf') /\ Ghost
 
 OpenBlock == /\ ~open /\ Len(prf) < MaxItems /\ "subproof" \in Rules /\ NBlocks < MaxBlocks
              /\ \E off \in IdOffs :
                 LET k == Len(prf) w2 == w + (IF off = 0 THEN 0 ELSE 1) IN
                 /\ w2 <= Budget
                 /\ prf' = Append(prf, Item(<<k + off>>, "subproof", NoneP, <<>>, NoneS, NoneS))
-                /\ w' = w2 /\ open' = TRUE
+                /\ w' = w2 /\ open' = TRUE /\ Ghost
 
 AddSub == /\ open
           /\ LET b == Len(prf) - 1  blk == prf[Len(prf)]  i == Len(blk.sub) IN
              /\ i < MaxSub
-             /\ \E rl \in Rules \ {"subproof"} : \E off \in IdOffs : \E q \in {b, blk.id[1]} : \E a \in Args(rl) :
-                \E cs \in Tuples(SubCites(b, blk.id[1]), Arity(rl)) :
-                LET nat == NatOf(rl, a.a, cs, prf) IN
-                \E t \in ThOpts(rl, nat) :
-                LET w2 == w + (IF off = 0 THEN 0 ELSE 1) + a.w + SumW(<<b, i>>, cs) + t.w IN
-                /\ w2 <= Budget
-                /\ prf' = [prf EXCEPT ![Len(prf)].sub = Append(@, Item(<<q, i + off>>, rl, a.a, cs, t.th, nat))]
-                /\ w' = w2 /\ UNCHANGED open
+             /\ \E rl \in Rules \ {"subproof"} : \E off \in OffsFor(Budget - w) : \E q \in {b, blk.id[1]} : \E a \in Args(rl) :
+                LET w1 == w + (IF off = 0 THEN 0 ELSE 1) + a.w IN
+                /\ w1 <= Budget
+                /\ \E cs \in Tuples(CitesFor(SubCites(b, blk.id[1]), <<b, i>>, Budget - w1), Arity(rl)) :
+                   LET w2 == w1 + SumW(<<b, i>>, cs) IN
+                   /\ w2 <= Budget
+                   /\ LET nat == NatOf(rl, a.a, cs, prf) IN
+                      \E t \in ThOpts(rl, nat) :
+                      /\ w2 + t.w <= Budget
+                      /\ prf' = [prf EXCEPT ![Len(prf)].sub = Append(@, Item(<<q, i + off>>, rl, a.a, cs, t.th, nat))]
+                      /\ w' = w2 + t.w /\ UNCHANGED open /\ Ghost
 
 CloseBlock == /\ open
               /\ LET blk == prf[Len(prf)] IN
@@ -129,14 +141,14 @@ CloseBlock == /\ open
                     /\ w + t.w <= Budget
                     /\ prf' = [prf EXCEPT ![Len(prf)].th = t.th, ![Len(prf)].nat = nat]
                     /\ w' = w + t.w /\ open' = FALSE
-                    /\ EmitObj(prf')
+                    /\ EmitObj(prf') /\ Ghost
 
 Next == AddTop \/ OpenBlock \/ AddSub \/ CloseBlock
 Spec == Init /\ [][Next]_vars
 
 \* ---------------------------------------------------------------- properties of the reference checker
-RG == RefCheck(prf, FALSE)
-RN == RefCheck(prf, TRUE)
+RG == rg
+RN == rn
 \* gap-free accepted proofs verify only tautologies (the registered theorem T1 is one)
 RefSound == RN.ok => \A v \in RN.V : Valid(v[2])
 \* with gaps disallowed no placeholder at any depth (including the gap macro) is tolerated
